@@ -32,6 +32,12 @@ func runLive(t vlib.TB, c liveCase) (*sim.Run, sim.Outcome) {
 		r.Apply(a)
 	}
 	out := r.Complete(budgetFor(c.S))
+	for k, n := range sim.GenExcluded {
+		for i := 0; i < n; i++ {
+			vlib.Excluded(chkLive, k)
+		}
+		delete(sim.GenExcluded, k)
+	}
 	for k, n := range r.W.Excluded {
 		for i := 0; i < n; i++ {
 			vlib.Excluded(chkLive, k)
